@@ -224,6 +224,10 @@ func (f *FrameHeader) readFrom(br *bufio.Reader) (int64, error) {
 		n, err = io.ReadFull(br, f.payload[:n])
 		if err != nil {
 			ReleaseFrame(f.fr)
+			// The body is back in its pool: whoever releases the header next
+			// must not find it there and release it a second time.
+			f.fr = nil
+
 			return 0, err
 		}
 
